@@ -328,16 +328,23 @@ func evalC01(c *Ctx, k skCase) error {
 	}
 	if b := okBody(plainI); b != nil {
 		w := b[0].B0()
-		d := implUnprotect(nil, k.role, exact(w), "nohdr")
-		if e := "(" + implDecode(w) + " (calls))"; d != e {
-			r.Add(Finding{Kind: "instance", What: "DecodeDecrypt without keys differs from Decode", Case: cs, Expected: e, Observed: d})
-		}
-		dm, err := c.M.Ask(fmt.Sprintf("(unprotect nil %s %s nohdr)", k.role, hx(w)))
-		if err != nil {
-			return err
-		}
-		if d != dm {
-			r.Add(Finding{Kind: "correspondence", What: "DecodeDecrypt without keys differs from Impl.decode_decrypt", Case: cs, Expected: dm, Observed: d})
+		// whether or not the receiver pre-parsed the header (in the same buffer or in another one)
+		for _, hdr := range []string{"nohdr", "parsed", "parsed-elsewhere"} {
+			d := implUnprotect(nil, k.role, rx(w), hdr)
+			if e := "(" + implDecode(w) + " (calls))"; d != e {
+				r.Add(Finding{Kind: "instance", What: "DecodeDecrypt without keys (" + hdr + ") differs from Decode", Case: cs, Expected: e, Observed: d})
+			}
+			mh := hdr
+			if mh == "parsed-elsewhere" {
+				mh = "parsed"
+			}
+			dm, err := c.M.Ask(fmt.Sprintf("(unprotect nil %s %s %s)", k.role, hx(w), mh))
+			if err != nil {
+				return err
+			}
+			if d != dm {
+				r.Add(Finding{Kind: "correspondence", What: "DecodeDecrypt without keys (" + hdr + ") differs from Impl.decode_decrypt", Case: cs, Expected: dm, Observed: d})
+			}
 		}
 	}
 	return nil
@@ -800,6 +807,7 @@ func runC17(c *Ctx) error {
 		var lastChild []string // transforms and nonce of the previous Child SA derivation of this history
 		for step := 0; step < n; step++ {
 			var op, implLong, implFresh, model string
+			atCtx(fmt.Sprintf("(history %s (%s) %s)", s, ks.sx(), strings.Join(hist, " ")))
 			choice := rng.Intn(5)
 			if justAccepted != nil && rng.Chance(2, 3) {
 				choice = 5
@@ -884,6 +892,27 @@ func runC17(c *Ctx) error {
 				} else {
 					raw = rng.Bytes(rng.Intn(80))
 				}
+				if len(genuine) > 0 && rng.Chance(1, 3) {
+					// well-framed datagrams (both length fields consistent) that each of the receiver's refusal paths must
+					// turn down: an Encrypted payload shorter than the checksum, one that is not a whole number of cipher
+					// blocks, one with a foreign checksum of the right size - the history goes on after every one of them
+					j := rng.Intn(len(genuine))
+					role = other(groles[j])
+					var body []byte
+					switch rng.Intn(3) {
+					case 0:
+						body = rng.Bytes(rng.Intn(21))
+					case 1:
+						body = rng.Bytes(16 + 16*rng.Intn(4) + rng.Range(1, 15) + 12)
+					default:
+						body = rng.Bytes(16 + 16*rng.Range(1, 4) + rng.Pick([]int{12, 16}))
+					}
+					raw = append([]byte(nil), genuine[j][:28]...)
+					raw[16] = 46
+					raw = append(raw, byte(rng.Pick([]int{0, 33, 41})), 0, byte((4+len(body))>>8), byte(4+len(body)))
+					raw = append(raw, body...)
+					binary.BigEndian.PutUint32(raw[24:], uint32(len(raw)))
+				}
 				op = fmt.Sprintf("(unprotect %s %s nohdr)", role, hx(raw))
 				implLong = implUnprotect(long, role, rx(raw), "nohdr")
 				implFresh = implUnprotect(fresh(), role, rx(raw), "nohdr")
@@ -930,6 +959,7 @@ func runC17(c *Ctx) error {
 			}
 		}
 		_ = k
+		atCtx("")
 	}
 	return nil
 }
